@@ -15,13 +15,10 @@ METAS = {
                                       ["the key (any u8)"], "3 polls + 1 close, unwind 3; model map / queue capacity 2"),
     "c13_two_keys_independent": m("limit 1, two distinct keys: a key at its limit sheds only its own arrivals; another key is admitted; closing frees the capacity",
                                   ["two distinct keys (any u8)"], "4 polls + 1 close, unwind 4; model capacity 2", thorough=True),
-    "c13_limit2_count_does_not_drift": m("limit 2, one key: two admitted, third shed, one closes, next admitted, the one after shed again",
-                                         ["the key (any u8)"], "5 polls + 1 close, unwind 4; model capacity 2", thorough=True),
     "c13_shed_only_own_key": m("limit 1: the second arrival of a key is shed (only because 1 is alive), an arrival of another key is admitted", ["two distinct keys (any u8)"], "3 polls, unwind 3"),
     "c13_limit2_third_shed": m("limit 2: two channels of one key admitted, the third shed", ["the key (any u8)"], "3 polls, unwind 3"),
     "c13_limit1_steps3": m("limit 1, 3 solver-chosen operations (arrival with key 0/1 + poll, or close of any live channel): after every operation <= 1 live channel per key, and an arrival is shed only if 1 channel with its key is alive",
                            ["operation kind per step", "key per arrival (0/1)", "which live channel closes"], "3 operations, <=3 live channels tracked, unwind 5", covers=1, thorough=True),
-    "c13_limit1_steps4": m("same with 4 operations (reaches open-close-open-open)", ["operation kind per step", "key per arrival", "which live channel closes"], "4 operations, unwind 6", thorough=True),
 }
 STATIC = {
     "coverage": {
